@@ -57,7 +57,11 @@ def main():
             if rc != 0:
                 meta['error'] = o[-300:]
                 summary.append(meta); print(sid, 'DOES NOT APPLY'); continue
+            if denv:
+                os.remove(os.path.join(WT, 'sv-parser/examples/seeddemo.rs'))     # needs the hook flag; the suite runs without it
             rct, ot = sh('cargo test --workspace --no-fail-fast --offline 2>&1', cwd=WT)
+            if denv:
+                shutil.copy(demo, os.path.join(WT, 'sv-parser/examples/seeddemo.rs'))
             passed = sum(int(x) for x in re.findall(r'test result: \w+\. (\d+) passed', ot))
             failed = sum(int(x) for x in re.findall(r'test result: \w+\. \d+ passed; (\d+) failed', ot))
             meta['suite'] = dict(exit=rct, passed=passed, failed=failed)
